@@ -77,7 +77,7 @@ const c14Guard = 16
 // array with c14Guard more sentinel bytes behind it.
 func c14Buf(n int) (out, backing []byte) {
 	backing = bytes.Repeat([]byte{0xa5}, n+c14Guard)
-	return backing[:n:n+c14Guard], backing
+	return backing[: n : n+c14Guard], backing
 }
 
 func c14GuardIntact(backing []byte, n int) bool {
